@@ -388,10 +388,16 @@ def r_dyad_own(ctx: RuleCtx, col: Collector):
                         any(x[0] == "attr" for o in s.origins for x in chain(o)):
                     n += 1
                     h = hits(s.arg_origins, ppats)
+                    own = [o for o in s.arg_origins if any(x[0] == "attr" for x in chain(o))]
                     if h:
                         col.bad(where_of(f), f.rel, line_of(s.stmt), stmt_key(s.stmt),
                                 f"vector stored in the carrier may alias {fmt_origin(h[0])}: the carrier must own "
                                 f"its data (AssembleGeneral zeroes rows of carriers in place)")
+                    elif own:
+                        col.bad(where_of(f), f.rel, line_of(s.stmt), stmt_key(s.stmt),
+                                f"vector stored in the carrier may alias {fmt_origin(own[0])}, a vector the carrier already "
+                                f"holds: in-place row / column zeroing (__setitem__) and in-place scaling write u and v "
+                                f"separately, so a shared array is changed twice")
                     else:
                         col.ok(where_of(f), f.rel, line_of(s.stmt), stmt_key(s.stmt), "stored vector is fresh memory")
             for st in an.attr_stores:
